@@ -30,7 +30,7 @@ def main(path):
         path = os.path.join(C.VERIF, path)
     r = json.load(open(path))
     pid = r["property"]
-    if r.get("engine") == "verus":
+    if r.get("engine") == "verus" or str(r.get("engine", "")).startswith("native search"):
         import native_search
         ns = r.get("native_search", {})
         seed = 0
